@@ -346,7 +346,8 @@ def _chain_case(override, top, levels):
 # climbs the same ladder as one resolved during the parse: without information of its own it takes the referring sheet's encoding
 
 LATE_TOPS = ['url-transport', 'url-charset', 'url-bom', 'url-bom16', 'bytes-bom16', 'bytes-charset', 'text-charset', 'imported-by-transport', 'imported-by-charset']
-LATE_HOW = ['during-parse', 'add(rule)', 'insertRule(rule)', 'href=', 'CSSImportRule(parentStyleSheet=)', 'add(text)']
+LATE_HOW = ['during-parse', 'add(rule)', 'insertRule(rule)', 'href=', 'CSSImportRule(parentStyleSheet=)', 'add(text)', 'add(text, blank in front)',
+            'add(text, upper case)', 'insertRule(text, url form)']
 LATE_CHILD = [['none', None], ['none', 'cp866'], ['charset', None]]  # (marker of the late sheet, its transport charset)
 
 
@@ -430,8 +431,12 @@ def _run_late(res, case):
                 rule = cssutils.css.CSSImportRule(href='nothing.css')
                 ref_sheet.add(rule)
                 rule.href = 'late.css'
-            elif how == 'add(text)':
-                ref_sheet.add('@import "late.css";')
+            elif how in ('add(text)', 'add(text, blank in front)', 'add(text, upper case)'):
+                ref_sheet.add({'add(text)': '@import "late.css";', 'add(text, blank in front)': '\n @import "late.css";',
+                               'add(text, upper case)': '@IMPORT "late.css";'}[how])
+                rule = [r for r in ref_sheet.cssRules if r.type == r.IMPORT_RULE][-1]
+            elif how == 'insertRule(text, url form)':
+                ref_sheet.insertRule('@Import url(late.css);', 1 if ref_sheet.cssRules.length and ref_sheet.cssRules[0].type == R.CHARSET_RULE else 0)
                 rule = [r for r in ref_sheet.cssRules if r.type == r.IMPORT_RULE][-1]
             else:
                 rule = cssutils.css.CSSImportRule(href='late.css', parentStyleSheet=ref_sheet)
